@@ -694,6 +694,14 @@ class _OsCryptBackend(_BcryptCommon):
         #
         secret, ident = self._prepare_digest_args(secret)
         config = self._get_config(ident)
+        if isinstance(secret, bytes) and len(secret) > 72:
+            # bcrypt only reads the first 72 bytes, but crypt() implementations refuse
+            # over-long input outright (libxcrypt: 512+ bytes). drop the unused tail,
+            # cutting at a character boundary since crypt.crypt() needs valid utf-8.
+            end = 72
+            while end < len(secret) and (secret[end] & 0xC0) == 0x80:
+                end += 1
+            secret = secret[:end]
         hash = safe_crypt(secret, config)
         if hash is not None:
             if not hash.startswith(config) or len(hash) != len(config) + 31:
